@@ -48,19 +48,40 @@ def regenerate(mod):
 
 
 def setup():
+    """Regenerate Gen files and build the closure of every claimed property (MANIFEST.json checks);
+    unclaimed work in progress is built too but cannot fail the setup."""
     t0 = time.time()
+    try:
+        claimed = [c['property_id'] for c in json.load(open(os.path.join(core.VERIF, 'MANIFEST.json')))['checks']]
+    except (OSError, ValueError, KeyError):
+        claimed = []
+    targets, extra = [], []
     for pid in available():
-        b = regenerate(load(pid))
-        for x in b:
-            log('setup: ' + x)
+        try:
+            mod = load(pid)
+            for x in regenerate(mod):
+                log('setup: ' + x)
+            t = mod.PROPS[:-2] + '.vo'
+            if os.path.exists(os.path.join(core.COQ, mod.PROPS)):
+                (targets if pid in claimed else extra).append(t)
+        except Exception as e:
+            log('setup: %s: %s' % (pid, e))
+            if pid in claimed:
+                return 1
     core.ensure_makefile()
-    ok, out, failed, cmd, dt = core.make(['all'], timeout=3000)
-    if not ok:
-        log(out[-6000:])
-        log('setup: build failed: %s' % failed)
-        return 1
-    log('setup: built %d files in %.0fs' % (len(core.coq_files()), time.time() - t0))
-    return 0
+    rc = 0
+    if targets:
+        ok, out, failed, cmd, dt = core.make(targets, timeout=3000)
+        if not ok:
+            log(out[-6000:])
+            log('setup: build failed: %s' % failed)
+            rc = 1
+    if extra:
+        ok, out, failed, cmd, dt = core.make(extra, timeout=3000)
+        if not ok:
+            log('setup: unclaimed work in progress does not build yet: %s' % failed)
+    log('setup: %d claimed targets, %d unclaimed, %.0fs' % (len(targets), len(extra), time.time() - t0))
+    return rc
 
 
 def run_check(pid, tier, seed):
@@ -106,6 +127,13 @@ def run_check(pid, tier, seed):
                 axioms_used.update(axs)
     if gate:
         discharged = 0
+
+    # 3b. thorough tier: independent re-check of the compiled closure with coqchk, axioms listed with -o
+    coqchk_report = None
+    if ok and tier == 'thorough' and not os.environ.get('VERIF_SKIP_COQCHK'):
+        coqchk_report = core.coqchk(props_rel)
+        if not coqchk_report['ok']:
+            broken.append('coqchk rejected the compiled closure of %s' % props_rel)
 
     # 4./5. correspondence and oracle
     changed = core.fingerprints_changed(pid, getattr(mod, 'MIRRORED', []))
@@ -178,6 +206,7 @@ def run_check(pid, tier, seed):
         'fingerprints_changed': changed, 'broken_obligations': broken,
         'refuted_theorems_standing': list(getattr(mod, 'REFUTED', [])),
         'known_findings_hit': sorted(hits), 'notes': res.notes, 'make_s': round(make_s, 1),
+        'coqchk': coqchk_report,
     }
     ev = {'property_id': pid, 'tier': tier, 'seed': seed, 'level': 'proof', 'coverage': cov,
           'assumptions': list(getattr(mod, 'ASSUMPTIONS', [])), 'wall_s': round(time.time() - t0, 2),
